@@ -31,14 +31,17 @@ theorem procLookup_cinv (s : St) (c : Ctx) (args : Bytes) (h : CInv s) : CInv (p
         split
         · exact h
         · rename_i n hn
-          have hpc : CleanPath (joinName n.path name) := joinName_clean n.path name (nodeOf_cleanI h hn) (by simpa using hv)
+          have hnc := nodeOf_cleanI h hn
+          have hpc : CleanPath (joinName n.path name) := joinName_clean n.path name hnc (by simpa using hv)
+          have keep : ∀ (t : St) (k : Attrs → Outcome), CInv t → CInv (lookupDirAttr t c.now n k).1 :=
+            fun t k ht => getAttrOr_cinv ht c.now n n.attrs hnc
           split
-          · exact h
+          · exact keep _ _ h
           · split
-            · rename_i heq; exact lookupPath_cinv' heq h hpc
+            · rename_i heq; exact keep _ _ (lookupPath_cinv' heq h hpc)
             · rename_i s1 ln heq
               have h1 := lookupPath_cinv' heq h hpc
-              exact allocate_cinv h1 ln (by rw [lookupPath_path heq]; exact hpc)
+              exact keep _ _ (allocate_cinv h1 ln (by rw [lookupPath_path heq]; exact hpc))
 
 theorem procAccess_cinv (s : St) (c : Ctx) (args : Bytes) (h : CInv s) : CInv (procAccess s c args).1 := by
   unfold procAccess
